@@ -501,10 +501,6 @@ theorem c16_parseItems_of (items : List (List Tok)) (is : List Item) (ps : List 
 
 /-! ### the generated `__init__` and helper methods, for any signature with mandatory parameters first -/
 
-/-- the names are bindable identifiers and the annotations are well-formed -/
-def textDomain (anns : String → Ann) (ps : List Param) : Bool :=
-  ps.all (fun p => identOk p.name && (anns p.name).wf)
-
 def kwInfos (kw : Bool) : List PInfo := if kw then [⟨"kw", .vk, false⟩] else []
 def kwItems (kw : Bool) : List Item := if kw then [.vk "kw"] else []
 def kwToks (kw : Bool) : List (List Tok) := if kw then [kwItem] else []
@@ -1114,6 +1110,18 @@ theorem c16_dupFree_method (lead : List String) (fs : List String) (kw : Bool) (
       · exact (h b hb).1 (e ▸ ha)
       · exact hk' (hb ▸ e ▸ ha)
 
+theorem c16_inj_of_nodup {ps : List Param} (h : (ps.map (·.name)).Nodup) {p q : Param} (hp : p ∈ ps) (hq : q ∈ ps)
+    (e : p.name = q.name) : p = q := by
+  induction ps with
+  | nil => cases hp
+  | cons x xs ih =>
+    simp only [List.map_cons, List.nodup_cons] at h
+    rcases List.mem_cons.mp hp with rfl | hp' <;> rcases List.mem_cons.mp hq with rfl | hq'
+    · rfl
+    · exact absurd (e ▸ List.mem_map_of_mem (f := (·.name)) hq') h.1
+    · exact absurd (e ▸ List.mem_map_of_mem (f := (·.name)) hp') h.1
+    · exact ih h.2 hp' hq'
+
 theorem c16_nodup_orderedArgs (ps : List Param) (h : (ps.map (·.name)).Nodup) :
     ((orderedArgs ps).map (·.name)).Nodup := by
   unfold orderedArgs
@@ -1125,9 +1133,7 @@ theorem c16_nodup_orderedArgs (ps : List Param) (h : (ps.map (·.name)).Nodup) :
   obtain ⟨q, hq, hqn⟩ := List.mem_map.mp hb
   have hpm := (List.mem_filter.mp hp)
   have hqm := (List.mem_filter.mp hq)
-  have : q = p := by
-    have hinj := List.inj_on_of_nodup_map h
-    exact hinj hqm.1 hpm.1 hqn
+  have : q = p := c16_inj_of_nodup h hqm.1 hpm.1 hqn
   subst this
   simp_all
 
